@@ -10,6 +10,7 @@ import (
 
 	json "github.com/goccy/go-json"
 
+	"verif/mc/oracle"
 	"verif/mc/props/util"
 	"verif/mc/work"
 )
@@ -19,6 +20,8 @@ import (
 func init() {
 	work.Register("C17", "c17.encode", c17Encode)
 	work.Register("C17", "c17.decode", c17Decode)
+	work.Register("C17", "c17.utf8", c17EncodeUTF8)
+	work.Register("C03", "c03.utf8", c03EncodeUTF8)
 }
 
 func c17ByteClass(b byte) string {
@@ -243,6 +246,91 @@ func c17Encode(c *work.Ctx) {
 			}
 		}
 	}
+}
+
+// c17UTF8Reps: one or two representatives of every byte class a UTF-8 decoder distinguishes (lead bytes with
+// their special second-byte ranges, the borders of the continuation range, and on the ASCII side the bytes just
+// below and above 0x40 — a masked comparison of two bytes at once confuses 0x00..0x3F with continuation bytes).
+var c17UTF8Reps = []byte{0x00, 0x1F, '"', '/', 0x3F, 0x40, '\\', 0x7F, 0x80, 0x8F, 0x90, 0x9F, 0xA0, 0xBF, 0xC0, 0xC1, 0xC2, 0xDF,
+	0xE0, 0xE1, 0xE2, 0xEC, 0xED, 0xEE, 0xEF, 0xF0, 0xF1, 0xF3, 0xF4, 0xF5, 0xFF}
+
+// c17ForEachUTF8 enumerates the strings of c17.utf8 / c03.utf8.
+func c17ForEachUTF8(quick bool, run func(b []byte)) {
+	reps := c17UTF8Reps
+	buf := make([]byte, 0, 16)
+	for _, a := range reps {
+		for _, b2 := range reps {
+			for _, b3 := range reps {
+				for _, b4 := range reps {
+					buf = append(buf[:0], a, b2, b3, b4)
+					run(buf)
+					if a >= 0x80 {
+						buf = append(append(buf[:0], "abcdefgh"...), a, b2, b3, b4)
+						run(buf)
+						if !quick {
+							buf = append(buf, 'z')
+							run(buf)
+						}
+					}
+				}
+			}
+		}
+	}
+}
+
+// c03EncodeUTF8 — the same strings under C03's oracle: whatever the flags and the entry point, a successful
+// encode is one well-formed JSON text, valid UTF-8 while normalisation is on.
+func c03EncodeUTF8(c *work.Ctx) {
+	c17ForEachUTF8(c.Quick(), func(b []byte) {
+		if !c.BeginS(string(b)) {
+			return
+		}
+		s := string(b)
+		vals := []interface{}{s, map[string]string{s: s}, struct {
+			A int
+			S string
+		}{1, s}}
+		for i := range c17FlagSets {
+			fl := &c17FlagSets[i]
+			for vi, v := range vals {
+				for _, indent := range []bool{false, true} {
+					var out []byte
+					var err error
+					if indent {
+						out, err = json.MarshalIndentWithOption(v, "", " ", fl.opts...)
+					} else {
+						out, err = json.MarshalWithOption(v, fl.opts...)
+					}
+					if err != nil {
+						continue
+					}
+					kind := ""
+					switch {
+					case !oracle.Valid(out):
+						kind = "ill-formed-output"
+					case fl.nrm && !utf8.Valid(out):
+						kind = "invalid-utf8-output"
+					}
+					c.Outcome(kind)
+					if kind != "" {
+						c.Violation(fmt.Sprintf("string bytes [%s] : %s : position %d : %s", fl.name, kind, vi, c17Classes(b)), s, fmt.Sprintf("encode of %q (position %d, indent %v, flags %s) gives %q", s, vi, indent, fl.name, out))
+					}
+				}
+			}
+		}
+		c.EndCase()
+	})
+}
+
+// c17EncodeUTF8 — every string of FOUR class representatives (the longest UTF-8 sequence), alone and behind one
+// full 8-byte chunk of plain bytes; thorough: also followed by a plain byte and five representatives behind a lead byte.
+func c17EncodeUTF8(c *work.Ctx) {
+	c17ForEachUTF8(c.Quick(), func(b []byte) {
+		if c.BeginS(string(b)) {
+			c17EncodeOne(c, b)
+			c.EndCase()
+		}
+	})
 }
 
 // ---- decode ---------------------------------------------------------------------
